@@ -254,4 +254,60 @@ def run(prog, rep, tier, repo):
                         ok = src == ('arg', 1, f.names.get(1)) and piv == ('arg', 2, f.names.get(2))
         (rep.ok if ok else rep.viol)('det-wiring', key, 'det = prod(diag(LU)) * parity(pivots)' if ok else 'determinant is %s' % [show(r)[:120] for r in rets], site_of(f.body))
     rep.floor('det-wiring', 2, 'det, lu_det')
+
+    # ------------------------------------------------------------------ D7 parity of the pivot vector
+    # lu()/Matrix::lu() return a permutation *vector* (pivots.swap(p, j)), not a LAPACK transposition list.  A swap-sort
+    # that counts transpositions yields the permutation's sign only if, when the position loop moves on from i, position
+    # i holds i (then #swaps = n - #cycles).  Structural obligation: every latch of the position loop is dominated by
+    # the edge perm[i] == i; one swap per counted step; swap(i, perm[i]) (which puts value perm[i] at its home).
+    k = U + 'ipiv_parity'
+    f = prog.func(k)
+    key = 'parity:' + k
+    if f is None:
+        rep.viol('parity', key, 'function disappeared')
+    else:
+        rep.touch(k)
+        swaps = [c for c in f.calls() if c.path is not None and c.path.endswith('::swap')]
+        if not swaps:
+            rep.undecided('parity', key, 'no swap-sort shape (no slice::swap on a working copy): parity routine not decided', proof=False)
+        else:
+            g = f.guards()
+            bad = []
+            for c in swaps:
+                loops = [li for li in f.enclosing_loops(c.bb) if li['item'] is not None]
+                obj, i, j = c.args[0], c.args[1], c.args[2]
+                pos = [li for li in loops if li['item'] == i]
+                if not pos:
+                    bad.append('swap first index %s is not the position loop counter' % show(i)[:60])
+                    continue
+                L = pos[0]
+                home = tag(j) == 'cast' and tag(j[2]) == 'index' and j[2][1] == obj and j[2][2] == i
+                if not home:
+                    bad.append('swap partner is %s, not perm[i]' % show(j)[:80])
+                latches = [p for p in f.cfg.pred[L['header']] if p in L['blocks']]
+                for lt in latches:
+                    fixed = False
+                    for cond, val in g.get(lt, []):
+                        if tag(cond) == 'bin' and cond[1] in ('Ne', 'Eq'):
+                            a, b = cond[2], cond[3]
+                            if (tag(a) == 'index' or tag(b) == 'index') and any(tag(x) == 'index' and x[1] == obj and x[2] == i for x in (a, b)) \
+                                    and any((x == i) or (tag(x) == 'cast' and x[2] == i) for x in (a, b)):
+                                if (cond[1] == 'Ne' and val is False) or (cond[1] == 'Eq' and val is True):
+                                    fixed = True
+                    if not fixed:
+                        bad.append('the position loop moves on from i (latch bb%d) without perm[i] == i being established: after one swap '
+                                   'position i may still be displaced, so #swaps != n - #cycles (e.g. [1,2,3,0] counts 2 swaps, sign +1, exact -1)' % lt)
+            # the counter
+            incs = [s for s in f.stores() if tag(s.target) == 'local' and tag(s.value) == 'bin' and s.value[1] == 'Add' and s.value[2] == s.target]
+            if len(incs) != len(swaps):
+                bad.append('%d counter increments for %d swaps' % (len(incs), len(swaps)))
+            else:
+                for s_, c in zip(sorted(incs, key=lambda s: s.bb), sorted(swaps, key=lambda c: c.bb)):
+                    if not (f.cfg.dominates(c.bb, s_.bb) or f.cfg.dominates(s_.bb, c.bb)) or \
+                            [li['header'] for li in f.enclosing_loops(c.bb)] != [li['header'] for li in f.enclosing_loops(s_.bb)] or \
+                            not (tag(s_.value[3]) == 'const' and s_.value[3][2] == 1):
+                        bad.append('counter increment %s is not one-per-swap' % show(s_.value)[:60])
+            (rep.viol if bad else rep.ok)('parity', key, '; '.join(bad) if bad else
+                                          'swap-sort: swap(i, perm[i]) repeated until perm[i] == i, one count per swap', site_of(f.body))
+    rep.floor('parity', 1, 'ipiv_parity')
     return {}
